@@ -3686,37 +3686,9 @@ def json__compactUnicodeEscape : List String := [
   "return output, index"
 ]
 
-def json__isNegativeZeroLiteral : List String := [
-  "func func(input []byte, i int) bool",
-  "if i >= len(input) || input[i] != '0' {",
-  "return false",
-  "}",
-  "if i+1 < len(input) && (input[i+1] == '.' || input[i+1] == 'e' || input[i+1] == 'E') {",
-  "return false",
-  "}",
-  "if i >= 2 && (input[i-2] == 'e' || input[i-2] == 'E') {",
-  "return false",
-  "}",
-  "return true"
-]
-
 def json__noVerifyCanonicalJSON : List String := [
   "func func(input []byte) error",
   "return nil"
-]
-
-def json__readHexDigits : List String := [
-  "func func(input []byte) rune",
-  "hex := binary.BigEndian.Uint32(input)",
-  "hex -= 0x30303030",
-  "hex &= 0x1F1F1F1F",
-  "mask := hex & 0x10101010",
-  "hex -= mask >> 1",
-  "hex += mask >> 4",
-  "hex |= hex >> 4",
-  "hex &= 0xFF00FF",
-  "hex |= hex >> 8",
-  "return rune(hex & 0xFFFF)"
 ]
 
 def json__sortJSONArray : List String := [
@@ -4774,6 +4746,6 @@ def stateresolutionv2_type_stateResolverV2 : List String := [
   "type stateResolverV2 struct { allower *allowerContext authProvider *AuthEvents authEventMap map[string]PDU conflictedEventMap map[string]PDU powerLevelContents map[string]*PowerLevelContent powerLevelMainlinePos map[string]int resolvedCreate PDU createEvent PDU resolvedPowerLevels PDU resolvedJoinRules PDU resolvedThirdPartyInvites map[string]PDU resolvedMembers map[spec.SenderID]PDU resolvedOthers map[StateKeyTuple]PDU result []PDU isRejectedFn IsRejected isRejectedCache map[string]bool }"
 ]
 
-def functions : List String := ["eventV1.go:.newEventFromTrustedJSONV1", "eventV1.go:.newEventFromTrustedJSONWithEventIDV1", "eventV1.go:.newEventFromUntrustedJSONV1", "eventV1.go:.signableEventJSON", "eventV1.go:eventV1.AuthEventIDs", "eventV1.go:eventV1.Content", "eventV1.go:eventV1.Depth", "eventV1.go:eventV1.EventID", "eventV1.go:eventV1.HistoryVisibility", "eventV1.go:eventV1.IsSticky", "eventV1.go:eventV1.JSON", "eventV1.go:eventV1.JoinRule", "eventV1.go:eventV1.MarshalJSON", "eventV1.go:eventV1.Membership", "eventV1.go:eventV1.OriginServerTS", "eventV1.go:eventV1.PowerLevels", "eventV1.go:eventV1.PrevEventIDs", "eventV1.go:eventV1.Redact", "eventV1.go:eventV1.Redacted", "eventV1.go:eventV1.Redacts", "eventV1.go:eventV1.RoomID", "eventV1.go:eventV1.SenderID", "eventV1.go:eventV1.SetUnsigned", "eventV1.go:eventV1.SetUnsignedField", "eventV1.go:eventV1.Sign", "eventV1.go:eventV1.StateKey", "eventV1.go:eventV1.StateKeyEquals", "eventV1.go:eventV1.StickyEndTime", "eventV1.go:eventV1.ToHeaderedJSON", "eventV1.go:eventV1.Type", "eventV1.go:eventV1.Unsigned", "eventV1.go:eventV1.Version", "eventV1.go:eventV1.assumedStickyStartTime", "eventV1.go:eventV1.calculatedStickyEndTime", "eventV1.go:type eventV1", "eventV1.go:type stickyEventData", "eventV2.go:.CheckFields", "eventV2.go:.newEventFromTrustedJSONV2", "eventV2.go:.newEventFromTrustedJSONWithEventIDV2", "eventV2.go:.newEventFromUntrustedJSONV2", "eventV2.go:eventV2.AuthEventIDs", "eventV2.go:eventV2.EventID", "eventV2.go:eventV2.MarshalJSON", "eventV2.go:eventV2.PrevEventIDs", "eventV2.go:eventV2.Redact", "eventV2.go:eventV2.SenderID", "eventV2.go:eventV2.SetUnsigned", "eventV2.go:eventV2.Sign", "eventV2.go:eventV2.populateEventID", "eventV2.go:type eventV2", "eventV3.go:.checkRoomID", "eventV3.go:.newEventFromTrustedJSONV3", "eventV3.go:.newEventFromTrustedJSONWithEventIDV3", "eventV3.go:.newEventFromUntrustedJSONV3", "eventV3.go:eventV3.AuthEventIDs", "eventV3.go:eventV3.RoomID", "eventV3.go:eventV3.SetUnsigned", "eventV3.go:eventV3.Sign", "eventV3.go:type eventV3", "event.go:EventValidationError.Error", "event.go:.SplitID", "event.go:.checkID", "event.go:.checkRoomIDField", "event.go:.checkUntrustedEventJSON", "event.go:.duplicateJSONKey", "event.go:.jsonFieldNames", "event.go:jsonWalk.duplicateName", "event.go:type EventValidationError", "event.go:type eventFields", "event.go:type jsonWalk", "eventauth.go:AuthEvents.AddEvent", "eventauth.go:AuthEvents.Clear", "eventauth.go:AuthEvents.Create", "eventauth.go:AuthEvents.JoinRules", "eventauth.go:AuthEvents.Member", "eventauth.go:AuthEvents.PowerLevels", "eventauth.go:AuthEvents.ThirdPartyInvite", "eventauth.go:AuthEvents.Valid", "eventauth.go:NotAllowed.Error", "eventauth.go:StateNeeded.AuthEventReferences", "eventauth.go:StateNeeded.Tuples", "eventauth.go:.Allowed", "eventauth.go:.NewAuthEvents", "eventauth.go:.StateNeededForAuth", "eventauth.go:.StateNeededForProtoEvent", "eventauth.go:.accumulateStateNeeded", "eventauth.go:.allowRestrictedJoins", "eventauth.go:.checkEventLevels", "eventauth.go:.checkKnocking", "eventauth.go:.checkNotificationLevels", "eventauth.go:.checkPowerLevelEventV1", "eventauth.go:.checkPowerLevelEventV2", "eventauth.go:.checkPowerLevelEventV3", "eventauth.go:.checkUserLevels", "eventauth.go:.disallowKnocking", "eventauth.go:.disallowRestrictedJoins", "eventauth.go:.errorf", "eventauth.go:.newAllowerContext", "eventauth.go:.thirdPartyInviteToken", "eventauth.go:allowerContext.aliasEventAllowed", "eventauth.go:allowerContext.allowed", "eventauth.go:allowerContext.createEventAllowed", "eventauth.go:allowerContext.defaultEventAllowed", "eventauth.go:allowerContext.memberEventAllowed", "eventauth.go:allowerContext.newEventAllower", "eventauth.go:allowerContext.newMembershipAllower", "eventauth.go:allowerContext.powerLevelsEventAllowed", "eventauth.go:allowerContext.redactEventAllowed", "eventauth.go:allowerContext.resetCreate", "eventauth.go:allowerContext.update", "eventauth.go:allowerContext.userPowerLevel", "eventauth.go:eventAllower.commonChecks", "eventauth.go:membershipAllower.membershipAllowed", "eventauth.go:membershipAllower.membershipAllowedFromThirdPartyInvite", "eventauth.go:membershipAllower.membershipAllowedOther", "eventauth.go:membershipAllower.membershipAllowedSelf", "eventauth.go:membershipAllower.membershipAllowedSelfForRestrictedJoin", "eventauth.go:membershipAllower.membershipFailed", "eventauth.go:type AuthEventProvider", "eventauth.go:type AuthEvents", "eventauth.go:type NotAllowed", "eventauth.go:type StateNeeded", "eventauth.go:type allowerContext", "eventauth.go:type eventAllower", "eventauth.go:type membershipAllower", "eventauth.go:type membershipContent", "eventcontent.go:CreateContent.DomainAllowed", "eventcontent.go:CreateContent.UserIDAllowed", "eventcontent.go:HistoryVisibility.Scan", "eventcontent.go:HistoryVisibility.Value", "eventcontent.go:MXIDMapping.Sign", "eventcontent.go:PowerLevelContent.Defaults", "eventcontent.go:PowerLevelContent.EventLevel", "eventcontent.go:PowerLevelContent.NotificationLevel", "eventcontent.go:PowerLevelContent.UserLevel", "eventcontent.go:.CreatorsFromCreateEvent", "eventcontent.go:.NewCreateContentFromAuthEvents", "eventcontent.go:.NewJoinRuleContentFromAuthEvents", "eventcontent.go:.NewMemberContentFromAuthEvents", "eventcontent.go:.NewMemberContentFromEvent", "eventcontent.go:.NewPowerLevelContentFromAuthEvents", "eventcontent.go:.NewPowerLevelContentFromEvent", "eventcontent.go:.NewThirdPartyInviteContentFromAuthEvents", "eventcontent.go:.checkCreateEventV1", "eventcontent.go:.checkCreateEventV2", "eventcontent.go:.checkCreateEventV3", "eventcontent.go:.domainFromID", "eventcontent.go:.isValidUserID", "eventcontent.go:.parseIntegerPowerLevels", "eventcontent.go:.parsePowerLevels", "eventcontent.go:levelJSONValue.UnmarshalJSON", "eventcontent.go:levelJSONValue.assignIfExists", "eventcontent.go:notNullLevel.UnmarshalJSON", "eventcontent.go:notNullLevels.UnmarshalJSON", "eventcontent.go:type CreateContent", "eventcontent.go:type HistoryVisibility", "eventcontent.go:type HistoryVisibilityContent", "eventcontent.go:type JoinRuleContent", "eventcontent.go:type JoinRuleContentAllowRule", "eventcontent.go:type MXIDMapping", "eventcontent.go:type MemberContent", "eventcontent.go:type MemberThirdPartyInvite", "eventcontent.go:type MemberThirdPartyInviteSigned", "eventcontent.go:type PowerLevelContent", "eventcontent.go:type PreviousRoom", "eventcontent.go:type PublicKey", "eventcontent.go:type RelatesTo", "eventcontent.go:type RelationContent", "eventcontent.go:type ThirdPartyInviteContent", "eventcontent.go:type levelJSONValue", "eventcontent.go:type notNullLevel", "eventcontent.go:type notNullLevels", "eventcrypto.go:.VerifyAllEventSignatures", "eventcrypto.go:.VerifyEventSignatures", "eventcrypto.go:.addContentHashesToEvent", "eventcrypto.go:.checkEventContentHash", "eventcrypto.go:.emptyAuthorisedViaServerName", "eventcrypto.go:.extractAuthorisedViaServerName", "eventcrypto.go:.getMXIDMapping", "eventcrypto.go:.membershipForSignatures", "eventcrypto.go:.referenceOfEvent", "eventcrypto.go:.referenceOfEventForVersion", "eventcrypto.go:.signEvent", "eventcrypto.go:.validateMXIDMappingSignatures", "eventversion.go:RoomVersionImpl.CheckCanonicalJSON", "eventversion.go:RoomVersionImpl.CheckCreateEvent", "eventversion.go:RoomVersionImpl.CheckKnockingAllowed", "eventversion.go:RoomVersionImpl.CheckPowerLevelEvent", "eventversion.go:RoomVersionImpl.CheckRestrictedJoin", "eventversion.go:RoomVersionImpl.CheckRestrictedJoinsAllowed", "eventversion.go:RoomVersionImpl.DomainlessRoomIDs", "eventversion.go:RoomVersionImpl.EventFormat", "eventversion.go:RoomVersionImpl.EventIDFormat", "eventversion.go:RoomVersionImpl.NewEventBuilder", "eventversion.go:RoomVersionImpl.NewEventBuilderFromProtoEvent", "eventversion.go:RoomVersionImpl.NewEventFromTrustedJSON", "eventversion.go:RoomVersionImpl.NewEventFromTrustedJSONWithEventID", "eventversion.go:RoomVersionImpl.NewEventFromUntrustedJSON", "eventversion.go:RoomVersionImpl.ParsePowerLevels", "eventversion.go:RoomVersionImpl.PrivilegedCreators", "eventversion.go:RoomVersionImpl.RedactEventJSON", "eventversion.go:RoomVersionImpl.RestrictedJoinServername", "eventversion.go:RoomVersionImpl.SignatureValidityCheck", "eventversion.go:RoomVersionImpl.Stable", "eventversion.go:RoomVersionImpl.StateResAlgorithm", "eventversion.go:RoomVersionImpl.Version", "eventversion.go:UnsupportedRoomVersionError.Error", "eventversion.go:.GetRoomVersion", "eventversion.go:.KnownRoomVersion", "eventversion.go:.MustGetRoomVersion", "eventversion.go:.NewEventFromHeaderedJSON", "eventversion.go:.RoomVersions", "eventversion.go:.SetRoomVersion", "eventversion.go:.StableRoomVersion", "eventversion.go:.StableRoomVersions", "eventversion.go:type EventFormat", "eventversion.go:type EventIDFormat", "eventversion.go:type IRoomVersion", "eventversion.go:type KnownRoomVersionFunc", "eventversion.go:type RoomVersion", "eventversion.go:type RoomVersionImpl", "eventversion.go:type StateResAlgorithm", "eventversion.go:type UnsupportedRoomVersionError", "fclient/federationtypes.go:DeviceKeys.Scan", "fclient/federationtypes.go:DeviceKeys.Value", "fclient/federationtypes.go:DeviceKeys.isCrossSigningBody", "fclient/federationtypes.go:MSC2836EventRelationshipsRequest.Defaults", "fclient/federationtypes.go:RespInvite.MarshalJSON", "fclient/federationtypes.go:RespInvite.UnmarshalJSON", "fclient/federationtypes.go:RespMakeJoin.GetJoinEvent", "fclient/federationtypes.go:RespMakeJoin.GetRoomVersion", "fclient/federationtypes.go:RespPeek.GetAuthEvents", "fclient/federationtypes.go:RespPeek.GetStateEvents", "fclient/federationtypes.go:RespPeek.MarshalJSON", "fclient/federationtypes.go:RespSendJoin.GetAuthEvents", "fclient/federationtypes.go:RespSendJoin.GetJoinEvent", "fclient/federationtypes.go:RespSendJoin.GetMembersOmitted", "fclient/federationtypes.go:RespSendJoin.GetOrigin", "fclient/federationtypes.go:RespSendJoin.GetServersInRoom", "fclient/federationtypes.go:RespSendJoin.GetStateEvents", "fclient/federationtypes.go:RespSendJoin.MarshalJSON", "fclient/federationtypes.go:RespStateIDs.GetAuthEventIDs", "fclient/federationtypes.go:RespStateIDs.GetStateEventIDs", "fclient/federationtypes.go:RespState.GetAuthEvents", "fclient/federationtypes.go:RespState.GetStateEvents", "fclient/federationtypes.go:RespState.MarshalJSON", "fclient/federationtypes.go:RespUserDevices.UnmarshalJSON", "fclient/federationtypes.go:.NewMSC2836EventRelationshipsRequest", "fclient/federationtypes.go:type DeviceKeys", "fclient/federationtypes.go:type EmptyResp", "fclient/federationtypes.go:type MSC2836EventRelationshipsRequest", "fclient/federationtypes.go:type MSC2836EventRelationshipsResponse", "fclient/federationtypes.go:type MissingEvents", "fclient/federationtypes.go:type PDUResult", "fclient/federationtypes.go:type PublicRoom", "fclient/federationtypes.go:type RespClaimKeys", "fclient/federationtypes.go:type RespDirectory", "fclient/federationtypes.go:type RespEventAuth", "fclient/federationtypes.go:type RespInvite", "fclient/federationtypes.go:type RespInviteV2", "fclient/federationtypes.go:type RespMakeJoin", "fclient/federationtypes.go:type RespMakeKnock", "fclient/federationtypes.go:type RespMakeLeave", "fclient/federationtypes.go:type RespMissingEvents", "fclient/federationtypes.go:type RespPeek", "fclient/federationtypes.go:type RespProfile", "fclient/federationtypes.go:type RespPublicRooms", "fclient/federationtypes.go:type RespQueryKeys", "fclient/federationtypes.go:type RespSend", "fclient/federationtypes.go:type RespSendJoin", "fclient/federationtypes.go:type RespSendKnock", "fclient/federationtypes.go:type RespState", "fclient/federationtypes.go:type RespStateIDs", "fclient/federationtypes.go:type RespUserDevice", "fclient/federationtypes.go:type RespUserDeviceKeys", "fclient/federationtypes.go:type RespUserDevices", "fclient/federationtypes.go:type RoomHierarchyResponse", "fclient/federationtypes.go:type RoomHierarchyRoom", "fclient/federationtypes.go:type RoomHierarchyStrippedEvent", "fclient/federationtypes.go:type Version", "fclient/federationtypes.go:type respInviteFields", "fclient/federationtypes.go:type respSendJoinFields", "fclient/federationtypes.go:type respSendJoinPartialStateFields", "fclient/federationtypes.go:type respStateFields", "fclient/request.go:FederationRequest.Content", "fclient/request.go:FederationRequest.Destination", "fclient/request.go:FederationRequest.HTTPRequest", "fclient/request.go:FederationRequest.Method", "fclient/request.go:FederationRequest.Origin", "fclient/request.go:FederationRequest.RequestURI", "fclient/request.go:FederationRequest.SetContent", "fclient/request.go:FederationRequest.Sign", "fclient/request.go:FederationRequest.checkFieldsUTF8", "fclient/request.go:.NewFederationRequest", "fclient/request.go:.ParseAuthorization", "fclient/request.go:.VerifyHTTPRequest", "fclient/request.go:.isSafeInHTTPQuotedString", "fclient/request.go:.readHTTPRequest", "fclient/request.go:type FederationRequest", "json.go:EventJSONs.TrustedEvents", "json.go:EventJSONs.UntrustedEvents", "json.go:.CanonicalJSON", "json.go:.CanonicalJSONAssumeValid", "json.go:.CompactJSON", "json.go:.EnforcedCanonicalJSON", "json.go:.NewEventJSONsFromEvents", "json.go:.SortJSON", "json.go:.compactUnicodeEscape", "json.go:.isNegativeZeroLiteral", "json.go:.noVerifyCanonicalJSON", "json.go:.readHexDigits", "json.go:.sortJSONArray", "json.go:.sortJSONObject", "json.go:.sortJSONValue", "json.go:.verifyEnforcedCanonicalJSON", "json.go:type EventJSONs", "keys.go:ServerKeys.MarshalJSON", "keys.go:ServerKeys.PublicKey", "keys.go:ServerKeys.UnmarshalJSON", "keys.go:.CheckKeys", "keys.go:.checkVerifyKeys", "keys.go:type Ed25519Checks", "keys.go:type KeyChecks", "keys.go:type OldVerifyKey", "keys.go:type ServerKeyFields", "keys.go:type ServerKeys", "keys.go:type VerifyKey", "signing.go:.ListKeyIDs", "signing.go:.SignJSON", "signing.go:.VerifyJSON", "signing.go:.checkStrictJSON", "signing.go:.checkStrictString", "signing.go:type KeyID", "spec/senderid.go:SenderID.IsPseudoID", "spec/senderid.go:SenderID.IsUserID", "spec/senderid.go:SenderID.RawBytes", "spec/senderid.go:SenderID.ToPseudoID", "spec/senderid.go:SenderID.ToUserID", "spec/senderid.go:.SenderIDFromPseudoIDKey", "spec/senderid.go:.SenderIDFromUserID", "spec/senderid.go:type CreateSenderID", "spec/senderid.go:type SenderID", "spec/senderid.go:type SenderIDForUser", "spec/senderid.go:type StoreSenderIDFromPublicID", "spec/senderid.go:type UserIDForSender", "stateresolutionv2.go:.HeaderedReverseTopologicalOrdering", "stateresolutionv2.go:.ResolveStateConflictsV2", "stateresolutionv2.go:.ResolveStateConflictsV2New", "stateresolutionv2.go:.ReverseTopologicalOrdering", "stateresolutionv2.go:.creatorsFromCreateEventOrNone", "stateresolutionv2.go:.eventMapFromEvents", "stateresolutionv2.go:.getCreateEvent", "stateresolutionv2.go:.isControlEvent", "stateresolutionv2.go:.kahnsAlgorithmUsingAuthEvents", "stateresolutionv2.go:.kahnsAlgorithmUsingPrevEvents", "stateresolutionv2.go:.newPDUSet", "stateresolutionv2.go:stateResolverV2.applyEvents", "stateresolutionv2.go:stateResolverV2.authAndApplyEvents", "stateresolutionv2.go:stateResolverV2.calculateAuthDifference", "stateresolutionv2.go:stateResolverV2.calculateAuthDifferenceNew", "stateresolutionv2.go:stateResolverV2.calculateFullAuthChainAndConflictedSubgraph", "stateresolutionv2.go:stateResolverV2.createPowerLevelMainline", "stateresolutionv2.go:stateResolverV2.getFirstPowerLevelMainlineEvent", "stateresolutionv2.go:stateResolverV2.getPowerLevelFromAuthEvents", "stateresolutionv2.go:stateResolverV2.mainlineOrdering", "stateresolutionv2.go:stateResolverV2.reverseTopologicalOrdering", "stateresolutionv2.go:stateResolverV2.wrapOtherEventsForSort", "stateresolutionv2.go:stateResolverV2.wrapPowerLevelEventsForSort", "stateresolutionv2.go:type IsRejected", "stateresolutionv2.go:type TopologicalOrder", "stateresolutionv2.go:type stateResolverV2"]
+def functions : List String := ["eventV1.go:.newEventFromTrustedJSONV1", "eventV1.go:.newEventFromTrustedJSONWithEventIDV1", "eventV1.go:.newEventFromUntrustedJSONV1", "eventV1.go:.signableEventJSON", "eventV1.go:eventV1.AuthEventIDs", "eventV1.go:eventV1.Content", "eventV1.go:eventV1.Depth", "eventV1.go:eventV1.EventID", "eventV1.go:eventV1.HistoryVisibility", "eventV1.go:eventV1.IsSticky", "eventV1.go:eventV1.JSON", "eventV1.go:eventV1.JoinRule", "eventV1.go:eventV1.MarshalJSON", "eventV1.go:eventV1.Membership", "eventV1.go:eventV1.OriginServerTS", "eventV1.go:eventV1.PowerLevels", "eventV1.go:eventV1.PrevEventIDs", "eventV1.go:eventV1.Redact", "eventV1.go:eventV1.Redacted", "eventV1.go:eventV1.Redacts", "eventV1.go:eventV1.RoomID", "eventV1.go:eventV1.SenderID", "eventV1.go:eventV1.SetUnsigned", "eventV1.go:eventV1.SetUnsignedField", "eventV1.go:eventV1.Sign", "eventV1.go:eventV1.StateKey", "eventV1.go:eventV1.StateKeyEquals", "eventV1.go:eventV1.StickyEndTime", "eventV1.go:eventV1.ToHeaderedJSON", "eventV1.go:eventV1.Type", "eventV1.go:eventV1.Unsigned", "eventV1.go:eventV1.Version", "eventV1.go:eventV1.assumedStickyStartTime", "eventV1.go:eventV1.calculatedStickyEndTime", "eventV1.go:type eventV1", "eventV1.go:type stickyEventData", "eventV2.go:.CheckFields", "eventV2.go:.newEventFromTrustedJSONV2", "eventV2.go:.newEventFromTrustedJSONWithEventIDV2", "eventV2.go:.newEventFromUntrustedJSONV2", "eventV2.go:eventV2.AuthEventIDs", "eventV2.go:eventV2.EventID", "eventV2.go:eventV2.MarshalJSON", "eventV2.go:eventV2.PrevEventIDs", "eventV2.go:eventV2.Redact", "eventV2.go:eventV2.SenderID", "eventV2.go:eventV2.SetUnsigned", "eventV2.go:eventV2.Sign", "eventV2.go:eventV2.populateEventID", "eventV2.go:type eventV2", "eventV3.go:.checkRoomID", "eventV3.go:.newEventFromTrustedJSONV3", "eventV3.go:.newEventFromTrustedJSONWithEventIDV3", "eventV3.go:.newEventFromUntrustedJSONV3", "eventV3.go:eventV3.AuthEventIDs", "eventV3.go:eventV3.RoomID", "eventV3.go:eventV3.SetUnsigned", "eventV3.go:eventV3.Sign", "eventV3.go:type eventV3", "event.go:EventValidationError.Error", "event.go:.SplitID", "event.go:.checkID", "event.go:.checkRoomIDField", "event.go:.checkUntrustedEventJSON", "event.go:.duplicateJSONKey", "event.go:.jsonFieldNames", "event.go:jsonWalk.duplicateName", "event.go:type EventValidationError", "event.go:type eventFields", "event.go:type jsonWalk", "eventauth.go:AuthEvents.AddEvent", "eventauth.go:AuthEvents.Clear", "eventauth.go:AuthEvents.Create", "eventauth.go:AuthEvents.JoinRules", "eventauth.go:AuthEvents.Member", "eventauth.go:AuthEvents.PowerLevels", "eventauth.go:AuthEvents.ThirdPartyInvite", "eventauth.go:AuthEvents.Valid", "eventauth.go:NotAllowed.Error", "eventauth.go:StateNeeded.AuthEventReferences", "eventauth.go:StateNeeded.Tuples", "eventauth.go:.Allowed", "eventauth.go:.NewAuthEvents", "eventauth.go:.StateNeededForAuth", "eventauth.go:.StateNeededForProtoEvent", "eventauth.go:.accumulateStateNeeded", "eventauth.go:.allowRestrictedJoins", "eventauth.go:.checkEventLevels", "eventauth.go:.checkKnocking", "eventauth.go:.checkNotificationLevels", "eventauth.go:.checkPowerLevelEventV1", "eventauth.go:.checkPowerLevelEventV2", "eventauth.go:.checkPowerLevelEventV3", "eventauth.go:.checkUserLevels", "eventauth.go:.disallowKnocking", "eventauth.go:.disallowRestrictedJoins", "eventauth.go:.errorf", "eventauth.go:.newAllowerContext", "eventauth.go:.thirdPartyInviteToken", "eventauth.go:allowerContext.aliasEventAllowed", "eventauth.go:allowerContext.allowed", "eventauth.go:allowerContext.createEventAllowed", "eventauth.go:allowerContext.defaultEventAllowed", "eventauth.go:allowerContext.memberEventAllowed", "eventauth.go:allowerContext.newEventAllower", "eventauth.go:allowerContext.newMembershipAllower", "eventauth.go:allowerContext.powerLevelsEventAllowed", "eventauth.go:allowerContext.redactEventAllowed", "eventauth.go:allowerContext.resetCreate", "eventauth.go:allowerContext.update", "eventauth.go:allowerContext.userPowerLevel", "eventauth.go:eventAllower.commonChecks", "eventauth.go:membershipAllower.membershipAllowed", "eventauth.go:membershipAllower.membershipAllowedFromThirdPartyInvite", "eventauth.go:membershipAllower.membershipAllowedOther", "eventauth.go:membershipAllower.membershipAllowedSelf", "eventauth.go:membershipAllower.membershipAllowedSelfForRestrictedJoin", "eventauth.go:membershipAllower.membershipFailed", "eventauth.go:type AuthEventProvider", "eventauth.go:type AuthEvents", "eventauth.go:type NotAllowed", "eventauth.go:type StateNeeded", "eventauth.go:type allowerContext", "eventauth.go:type eventAllower", "eventauth.go:type membershipAllower", "eventauth.go:type membershipContent", "eventcontent.go:CreateContent.DomainAllowed", "eventcontent.go:CreateContent.UserIDAllowed", "eventcontent.go:HistoryVisibility.Scan", "eventcontent.go:HistoryVisibility.Value", "eventcontent.go:MXIDMapping.Sign", "eventcontent.go:PowerLevelContent.Defaults", "eventcontent.go:PowerLevelContent.EventLevel", "eventcontent.go:PowerLevelContent.NotificationLevel", "eventcontent.go:PowerLevelContent.UserLevel", "eventcontent.go:.CreatorsFromCreateEvent", "eventcontent.go:.NewCreateContentFromAuthEvents", "eventcontent.go:.NewJoinRuleContentFromAuthEvents", "eventcontent.go:.NewMemberContentFromAuthEvents", "eventcontent.go:.NewMemberContentFromEvent", "eventcontent.go:.NewPowerLevelContentFromAuthEvents", "eventcontent.go:.NewPowerLevelContentFromEvent", "eventcontent.go:.NewThirdPartyInviteContentFromAuthEvents", "eventcontent.go:.checkCreateEventV1", "eventcontent.go:.checkCreateEventV2", "eventcontent.go:.checkCreateEventV3", "eventcontent.go:.domainFromID", "eventcontent.go:.isValidUserID", "eventcontent.go:.parseIntegerPowerLevels", "eventcontent.go:.parsePowerLevels", "eventcontent.go:levelJSONValue.UnmarshalJSON", "eventcontent.go:levelJSONValue.assignIfExists", "eventcontent.go:notNullLevel.UnmarshalJSON", "eventcontent.go:notNullLevels.UnmarshalJSON", "eventcontent.go:type CreateContent", "eventcontent.go:type HistoryVisibility", "eventcontent.go:type HistoryVisibilityContent", "eventcontent.go:type JoinRuleContent", "eventcontent.go:type JoinRuleContentAllowRule", "eventcontent.go:type MXIDMapping", "eventcontent.go:type MemberContent", "eventcontent.go:type MemberThirdPartyInvite", "eventcontent.go:type MemberThirdPartyInviteSigned", "eventcontent.go:type PowerLevelContent", "eventcontent.go:type PreviousRoom", "eventcontent.go:type PublicKey", "eventcontent.go:type RelatesTo", "eventcontent.go:type RelationContent", "eventcontent.go:type ThirdPartyInviteContent", "eventcontent.go:type levelJSONValue", "eventcontent.go:type notNullLevel", "eventcontent.go:type notNullLevels", "eventcrypto.go:.VerifyAllEventSignatures", "eventcrypto.go:.VerifyEventSignatures", "eventcrypto.go:.addContentHashesToEvent", "eventcrypto.go:.checkEventContentHash", "eventcrypto.go:.emptyAuthorisedViaServerName", "eventcrypto.go:.extractAuthorisedViaServerName", "eventcrypto.go:.getMXIDMapping", "eventcrypto.go:.membershipForSignatures", "eventcrypto.go:.referenceOfEvent", "eventcrypto.go:.referenceOfEventForVersion", "eventcrypto.go:.signEvent", "eventcrypto.go:.validateMXIDMappingSignatures", "eventversion.go:RoomVersionImpl.CheckCanonicalJSON", "eventversion.go:RoomVersionImpl.CheckCreateEvent", "eventversion.go:RoomVersionImpl.CheckKnockingAllowed", "eventversion.go:RoomVersionImpl.CheckPowerLevelEvent", "eventversion.go:RoomVersionImpl.CheckRestrictedJoin", "eventversion.go:RoomVersionImpl.CheckRestrictedJoinsAllowed", "eventversion.go:RoomVersionImpl.DomainlessRoomIDs", "eventversion.go:RoomVersionImpl.EventFormat", "eventversion.go:RoomVersionImpl.EventIDFormat", "eventversion.go:RoomVersionImpl.NewEventBuilder", "eventversion.go:RoomVersionImpl.NewEventBuilderFromProtoEvent", "eventversion.go:RoomVersionImpl.NewEventFromTrustedJSON", "eventversion.go:RoomVersionImpl.NewEventFromTrustedJSONWithEventID", "eventversion.go:RoomVersionImpl.NewEventFromUntrustedJSON", "eventversion.go:RoomVersionImpl.ParsePowerLevels", "eventversion.go:RoomVersionImpl.PrivilegedCreators", "eventversion.go:RoomVersionImpl.RedactEventJSON", "eventversion.go:RoomVersionImpl.RestrictedJoinServername", "eventversion.go:RoomVersionImpl.SignatureValidityCheck", "eventversion.go:RoomVersionImpl.Stable", "eventversion.go:RoomVersionImpl.StateResAlgorithm", "eventversion.go:RoomVersionImpl.Version", "eventversion.go:UnsupportedRoomVersionError.Error", "eventversion.go:.GetRoomVersion", "eventversion.go:.KnownRoomVersion", "eventversion.go:.MustGetRoomVersion", "eventversion.go:.NewEventFromHeaderedJSON", "eventversion.go:.RoomVersions", "eventversion.go:.SetRoomVersion", "eventversion.go:.StableRoomVersion", "eventversion.go:.StableRoomVersions", "eventversion.go:type EventFormat", "eventversion.go:type EventIDFormat", "eventversion.go:type IRoomVersion", "eventversion.go:type KnownRoomVersionFunc", "eventversion.go:type RoomVersion", "eventversion.go:type RoomVersionImpl", "eventversion.go:type StateResAlgorithm", "eventversion.go:type UnsupportedRoomVersionError", "fclient/federationtypes.go:DeviceKeys.Scan", "fclient/federationtypes.go:DeviceKeys.Value", "fclient/federationtypes.go:DeviceKeys.isCrossSigningBody", "fclient/federationtypes.go:MSC2836EventRelationshipsRequest.Defaults", "fclient/federationtypes.go:RespInvite.MarshalJSON", "fclient/federationtypes.go:RespInvite.UnmarshalJSON", "fclient/federationtypes.go:RespMakeJoin.GetJoinEvent", "fclient/federationtypes.go:RespMakeJoin.GetRoomVersion", "fclient/federationtypes.go:RespPeek.GetAuthEvents", "fclient/federationtypes.go:RespPeek.GetStateEvents", "fclient/federationtypes.go:RespPeek.MarshalJSON", "fclient/federationtypes.go:RespSendJoin.GetAuthEvents", "fclient/federationtypes.go:RespSendJoin.GetJoinEvent", "fclient/federationtypes.go:RespSendJoin.GetMembersOmitted", "fclient/federationtypes.go:RespSendJoin.GetOrigin", "fclient/federationtypes.go:RespSendJoin.GetServersInRoom", "fclient/federationtypes.go:RespSendJoin.GetStateEvents", "fclient/federationtypes.go:RespSendJoin.MarshalJSON", "fclient/federationtypes.go:RespStateIDs.GetAuthEventIDs", "fclient/federationtypes.go:RespStateIDs.GetStateEventIDs", "fclient/federationtypes.go:RespState.GetAuthEvents", "fclient/federationtypes.go:RespState.GetStateEvents", "fclient/federationtypes.go:RespState.MarshalJSON", "fclient/federationtypes.go:RespUserDevices.UnmarshalJSON", "fclient/federationtypes.go:.NewMSC2836EventRelationshipsRequest", "fclient/federationtypes.go:type DeviceKeys", "fclient/federationtypes.go:type EmptyResp", "fclient/federationtypes.go:type MSC2836EventRelationshipsRequest", "fclient/federationtypes.go:type MSC2836EventRelationshipsResponse", "fclient/federationtypes.go:type MissingEvents", "fclient/federationtypes.go:type PDUResult", "fclient/federationtypes.go:type PublicRoom", "fclient/federationtypes.go:type RespClaimKeys", "fclient/federationtypes.go:type RespDirectory", "fclient/federationtypes.go:type RespEventAuth", "fclient/federationtypes.go:type RespInvite", "fclient/federationtypes.go:type RespInviteV2", "fclient/federationtypes.go:type RespMakeJoin", "fclient/federationtypes.go:type RespMakeKnock", "fclient/federationtypes.go:type RespMakeLeave", "fclient/federationtypes.go:type RespMissingEvents", "fclient/federationtypes.go:type RespPeek", "fclient/federationtypes.go:type RespProfile", "fclient/federationtypes.go:type RespPublicRooms", "fclient/federationtypes.go:type RespQueryKeys", "fclient/federationtypes.go:type RespSend", "fclient/federationtypes.go:type RespSendJoin", "fclient/federationtypes.go:type RespSendKnock", "fclient/federationtypes.go:type RespState", "fclient/federationtypes.go:type RespStateIDs", "fclient/federationtypes.go:type RespUserDevice", "fclient/federationtypes.go:type RespUserDeviceKeys", "fclient/federationtypes.go:type RespUserDevices", "fclient/federationtypes.go:type RoomHierarchyResponse", "fclient/federationtypes.go:type RoomHierarchyRoom", "fclient/federationtypes.go:type RoomHierarchyStrippedEvent", "fclient/federationtypes.go:type Version", "fclient/federationtypes.go:type respInviteFields", "fclient/federationtypes.go:type respSendJoinFields", "fclient/federationtypes.go:type respSendJoinPartialStateFields", "fclient/federationtypes.go:type respStateFields", "fclient/request.go:FederationRequest.Content", "fclient/request.go:FederationRequest.Destination", "fclient/request.go:FederationRequest.HTTPRequest", "fclient/request.go:FederationRequest.Method", "fclient/request.go:FederationRequest.Origin", "fclient/request.go:FederationRequest.RequestURI", "fclient/request.go:FederationRequest.SetContent", "fclient/request.go:FederationRequest.Sign", "fclient/request.go:FederationRequest.checkFieldsUTF8", "fclient/request.go:.NewFederationRequest", "fclient/request.go:.ParseAuthorization", "fclient/request.go:.VerifyHTTPRequest", "fclient/request.go:.isSafeInHTTPQuotedString", "fclient/request.go:.readHTTPRequest", "fclient/request.go:type FederationRequest", "json.go:EventJSONs.TrustedEvents", "json.go:EventJSONs.UntrustedEvents", "json.go:.CanonicalJSON", "json.go:.CanonicalJSONAssumeValid", "json.go:.CompactJSON", "json.go:.EnforcedCanonicalJSON", "json.go:.NewEventJSONsFromEvents", "json.go:.SortJSON", "json.go:.compactUnicodeEscape", "json.go:.noVerifyCanonicalJSON", "json.go:.sortJSONArray", "json.go:.sortJSONObject", "json.go:.sortJSONValue", "json.go:.verifyEnforcedCanonicalJSON", "json.go:type EventJSONs", "keys.go:ServerKeys.MarshalJSON", "keys.go:ServerKeys.PublicKey", "keys.go:ServerKeys.UnmarshalJSON", "keys.go:.CheckKeys", "keys.go:.checkVerifyKeys", "keys.go:type Ed25519Checks", "keys.go:type KeyChecks", "keys.go:type OldVerifyKey", "keys.go:type ServerKeyFields", "keys.go:type ServerKeys", "keys.go:type VerifyKey", "signing.go:.ListKeyIDs", "signing.go:.SignJSON", "signing.go:.VerifyJSON", "signing.go:.checkStrictJSON", "signing.go:.checkStrictString", "signing.go:type KeyID", "spec/senderid.go:SenderID.IsPseudoID", "spec/senderid.go:SenderID.IsUserID", "spec/senderid.go:SenderID.RawBytes", "spec/senderid.go:SenderID.ToPseudoID", "spec/senderid.go:SenderID.ToUserID", "spec/senderid.go:.SenderIDFromPseudoIDKey", "spec/senderid.go:.SenderIDFromUserID", "spec/senderid.go:type CreateSenderID", "spec/senderid.go:type SenderID", "spec/senderid.go:type SenderIDForUser", "spec/senderid.go:type StoreSenderIDFromPublicID", "spec/senderid.go:type UserIDForSender", "stateresolutionv2.go:.HeaderedReverseTopologicalOrdering", "stateresolutionv2.go:.ResolveStateConflictsV2", "stateresolutionv2.go:.ResolveStateConflictsV2New", "stateresolutionv2.go:.ReverseTopologicalOrdering", "stateresolutionv2.go:.creatorsFromCreateEventOrNone", "stateresolutionv2.go:.eventMapFromEvents", "stateresolutionv2.go:.getCreateEvent", "stateresolutionv2.go:.isControlEvent", "stateresolutionv2.go:.kahnsAlgorithmUsingAuthEvents", "stateresolutionv2.go:.kahnsAlgorithmUsingPrevEvents", "stateresolutionv2.go:.newPDUSet", "stateresolutionv2.go:stateResolverV2.applyEvents", "stateresolutionv2.go:stateResolverV2.authAndApplyEvents", "stateresolutionv2.go:stateResolverV2.calculateAuthDifference", "stateresolutionv2.go:stateResolverV2.calculateAuthDifferenceNew", "stateresolutionv2.go:stateResolverV2.calculateFullAuthChainAndConflictedSubgraph", "stateresolutionv2.go:stateResolverV2.createPowerLevelMainline", "stateresolutionv2.go:stateResolverV2.getFirstPowerLevelMainlineEvent", "stateresolutionv2.go:stateResolverV2.getPowerLevelFromAuthEvents", "stateresolutionv2.go:stateResolverV2.mainlineOrdering", "stateresolutionv2.go:stateResolverV2.reverseTopologicalOrdering", "stateresolutionv2.go:stateResolverV2.wrapOtherEventsForSort", "stateresolutionv2.go:stateResolverV2.wrapPowerLevelEventsForSort", "stateresolutionv2.go:type IsRejected", "stateresolutionv2.go:type TopologicalOrder", "stateresolutionv2.go:type stateResolverV2"]
 
 end VPins.C18
